@@ -40,6 +40,8 @@ def cases(draw, tier):
     if d.p(4):
         return gen.scotland_prior_stage_case(d) if d.p(60) else gen.scotland_threeway_case(d)
     if d.p(2):
+        return gen.narrow_chain_case(d, statutory_only=True)      # values truncated to exactly zero beside valued papers
+    if d.p(2):
         case = gen.fractional_landing_case(d)        # a tally exactly on a fractional threshold (>= versus >)
         if case['rule'] == 'wigm' and case['options'].get('precision') != 4:
             case.update(rule='wigm-prf', options={})
